@@ -4,9 +4,12 @@ import subprocess
 from vlib.scn import Scenario, h, run_token
 from checks import common
 
+from gen import extract_facts
+generate_facts = extract_facts.generate
+
 ID = "C14"
-LEAN_MODULES = ["Econf.Props.C14"]
-THEOREMS = []
+LEAN_MODULES = ["Econf.Props.C14", "Econf.Props.Struct"]
+THEOREMS = ["Econf.Struct.C14_fixed_buffers"]
 SHRINK = False
 RULE = ("every field kind (key, value, continuation line, section, comment before, comment after, file name, directory name, option "
         "string, econftool --delimiters) x lengths {1, BUFSIZ-2..BUFSIZ+2, 2*BUFSIZ, 64Ki, 1Mi (thorough)} and {NAME_MAX-1, NAME_MAX}, "
